@@ -392,7 +392,10 @@ def run_sched(first, steps, flagged):
     with simk.installed(k):
         list(psutil.process_iter())
         if flagged:
-            stale = psutil._pmap[history.PID_POOL[0]]
+            stale = psutil._pmap.get(history.PID_POOL[0])
+            if stale is None:
+                raise Violation("cache-not-updated",
+                                "a complete pass left no cached object for a listed PID")
             w.recycle(history.PID_POOL[0])
             if stale.is_running():
                 raise Violation("sched-setup", "recycled PID not detected")
